@@ -1296,7 +1296,8 @@ class Run:
             e = rng.randrange(len(w.classes)); cls = w.classes[e]; ed = w.schema['ents'][e]
             liv = sh.live(e)
             form = rng.choice(['getitem', 'get_pk', 'get_kw', 'exists_kw', 'get_unique', 'get_ckey', 'get_rel', 'select_all', 'select_kw',
-                               'select_gen', 'select_lambda', 'count', 'sum', 'max', 'min', 'to_dict', 'to_dict_coll', 'helper'])
+                               'select_gen', 'select_lambda', 'count', 'sum', 'max', 'min', 'to_dict', 'to_dict_coll', 'helper',
+                               'get_extra', 'get_extra', 'get_extra'])
             if w.has_hooks and rng.random() < 0.45: form = 'helper'
             if form == 'helper':
                 # the application asks through the helpers the hooks use (same query keys): right after the flush the hooks ran in - the
@@ -1334,6 +1335,62 @@ class Run:
                 elif form == 'select_kw': self_rd('select-kw', 'scalar', lambda: sorted(self.oid_of(x) for x in cls.select(**{n: v})[:]), match)
                 elif form == 'select_gen': self_rd('select-gen', 'scalar', lambda: sorted(self.oid_of(x) for x in select(x for x in cls if getattr(x, n) == v)[:]), match)
                 else: self_rd('select-lambda', 'scalar', lambda: sorted(self.oid_of(x) for x in cls.select(lambda x: getattr(x, n) == v)[:]), match)
+                continue
+            if form == 'get_extra':
+                # a lookup that the session cache can answer (anchor: primary key, unique attribute, composite key, or the one-to-one reverse
+                # shortcut) with ADDITIONAL criteria on other attributes - the object's current value, another value, None, a reference,
+                # a None reference - whatever the session did to those attributes, flushed or not: the answer is the database's after a flush
+                if not known: continue
+                o = rng.choice(known); ov = o['vals']
+                oid0 = next(i for i, x in sh.objs.items() if x is o)
+                anchors = ['pk']
+                if any(s['unique'] for s in ed['scalars']) and ov['u0'] is not None: anchors.append('unique')
+                if ed['ckey'] and ov['c0'] is not None and ov['c1'] is not None: anchors.append('ckey')
+                o2o = [k for k in w.ent_rel[e] if not w.sides[k]['coll'] and w.sides[k]['has_col'] and not w.sides[w.rev(k)]['coll']
+                       and ov[w.sides[k]['name']] is not None and ov[w.sides[k]['name']] in self.usable(w.sides[w.rev(k)]['ent'])]
+                if o2o: anchors.append('o2o')
+                anchor = rng.choice(anchors + [a for a in anchors if a != 'pk'] * 2)      # the rarer anchors are preferred when available
+                crit = {}                      # attribute name -> shadow value (scalars: int / None; references: oid / None)
+                if anchor == 'pk':
+                    if ed['pk'] == 'composite': crit['p1'], crit['p2'] = o['pk']
+                    else: crit['id'] = o['pk']
+                elif anchor == 'unique': crit['u0'] = ov['u0']
+                elif anchor == 'ckey': crit['c0'], crit['c1'] = ov['c0'], ov['c1']
+                else:
+                    k0 = rng.choice(o2o); crit[w.sides[k0]['name']] = ov[w.sides[k0]['name']]
+                refnames = {w.sides[k]['name']: k for k in w.ent_rel[e] if not w.sides[k]['coll'] and w.sides[k]['has_col']}
+                others = [s['name'] for s in ed['scalars'] if s['name'] not in crit] + [n for n in refnames if n not in crit]
+                rng.shuffle(others)
+                required = {s['name'] for s in ed['scalars'] if s['req']} | {n for n, k in refnames.items() if w.sides[k]['req']}
+                for n in others[:rng.choice([1, 1, 2])]:
+                    c = rng.random()
+                    if c < 0.4: crit[n] = ov[n]
+                    elif c < 0.7 and n not in required: crit[n] = None      # (None for a Required attribute is refused by validation: ValueError)
+                    elif n in refnames:
+                        tg = self.usable(w.sides[w.rev(refnames[n])]['ent'])
+                        crit[n] = rng.choice(tg) if tg else None
+                    else: crit[n] = rng.choice([0, 1, 2, 3, 4, 5])
+                def val_of(oid, n):
+                    x = sh.objs[oid]
+                    if n == 'id': return x['pk']
+                    if n in ('p1', 'p2'): return x['pk'][0 if n == 'p1' else 1] if x['pk'] is not None else None
+                    return x['vals'][n]
+                if any(n in ('id', 'p1', 'p2') and v is None for n, v in crit.items()): continue
+                by_anchor = [i for i in liv if all(val_of(i, n) == crit[n] for n in list(crit)[:2 if anchor == 'ckey' or (anchor == 'pk' and ed['pk'] == 'composite') else 1])]
+                if len(by_anchor) > 1: continue        # an undetected key clash is pending: either holder would do
+                match = sorted(i for i in liv if all(val_of(i, n) == v for n, v in crit.items()))
+                kw = {}; params = []; okp = True
+                for n, v in crit.items():
+                    if n in refnames and v is not None:
+                        xo = rs(v)
+                        if xo is None or self.stop: okp = False; break
+                        kw[n] = xo; params.append(xo)
+                    else: kw[n] = v
+                if not okp: continue
+                self.count('get-extra:' + anchor)
+                exp = 'MultipleObjectsFoundError' if len(match) > 1 else (match[0] if match else None)
+                if rng.random() < 0.6: self_rd('get-extra', anchor, lambda: self.oid_of(cls.get(**kw)), exp, params=params)
+                else: self_rd('exists-extra', anchor, lambda: cls.exists(**kw), bool(match), params=params)
                 continue
             if form == 'get_unique':
                 if not any(s['unique'] for s in ed['scalars']): continue
